@@ -29,6 +29,10 @@ CHECKS = {
          "Seeded random exploration of Fil+ histories (verifier add/remove via the root multisig, grants at/over the allowance, datacap transfers with allocation/extension requests at and beyond policy limits and with mismatching amounts, claim batches sent as the real miner actors with repeated/foreign/mismatched/expired entries and all-or-nothing, expired-allocation/claim removal, term extensions, signed datacap removal with good/stale/garbage signatures, holder transfers and burns, epoch jumps); after every message: supply == sum of balances, per-holder balance deltas and supply delta equal what the operation entitles (mint - new allocations - extension spend + refunds - destroys - burns - claimed sizes), registry balance == sum of open allocation sizes, every allocation ends exactly once (claimed by its provider with matching data within expiration/term, or refunded at/after expiration), ids never reused, claim term_max never decreases, claims vanish only after expiry.",
          "Trusted: SimVM semantics; ClaimAllocations sent as the miner actors by implicit messages; fake signer-bound signatures. Market-mediated allocations (verified deals) are not generated in this engine yet.",
          "§3 C09"),
+ "C17": ("differential property-based testing (proptest) of the EVM actor against an independent reference interpreter",
+         "Generated single instructions with boundary-biased 256-bit operands and generated multi-instruction programs (loops, conditional jumps, fake jump targets, memory expansion incl. 32-bit boundary offsets, persistent/transient storage, copies, hashing, all endings) over random call data are deployed through the real EAM path and invoked through InvokeContract; outcome class, return/revert data and the final storage of every touched slot must equal what harness/src/evmref.rs (Yellow Paper + EIPs on num-bigint) computes.",
+         "Trusted: the reference interpreter; SimVM; verif-hooks fuel/memory cap in place of gas (exhausted cases discarded and counted). Gas-dependent opcodes, precompiles, calls and logs are outside the compared subset.",
+         "§3 C17"),
 }
 PENDING_REASON = "check not built yet in this session (engine planned in DESIGN.md §3); not claimed until it runs silently on the unchanged tree and kills its mutants"
 
@@ -57,10 +61,10 @@ def main():
         "version": 1,
         "setup_cmd": "cd /verif/harness && CARGO_NET_OFFLINE=true cargo build --release --offline",
         "hooks": {
-            "guard": "verif-hooks (cargo feature on fil_actor_evm; not yet used)",
-            "enable": "checks build /repo crates by path dependency from /verif/harness; no hook is currently required",
+            "guard": "verif-hooks (cargo feature on crate fil_actor_evm, default off)",
+            "enable": "/verif/harness/Cargo.toml depends on /repo/actors/evm with features = [\"verif-hooks\"] (execution fuel + memory cap); everything else is built without hooks",
             "baseline_off_cmd": "cd /repo && cargo test --workspace --no-fail-fast --offline",
-            "source_commits": [],
+            "source_commits": ["15461b3"],
             "add_only": True,
         },
         "engines": [
